@@ -5,6 +5,7 @@ cd /verif
 ids="${@:-$(ls seeded | grep -E '^C[0-9]+-')}"
 for id in $ids; do
   det=$(python3 -c "import json;print(' '.join(json.load(open('/verif/seeded/$id/meta.json'))['detected_by_quick_tier_of'][:1]))")
+  [ -z "$det" ] && { echo "$id skipped (recorded as not detected)"; continue; }
   out=$(XS_TARGET=/tmp/xr-target tools/try_mutant_scratch.sh /verif/seeded/$id/patch.diff $det 2>&1 | cut -c1-160)
   case "$out" in *DETECTED*) echo "$id ok: $out";; *) echo "$id REGRESSION: $out";; esac
 done
